@@ -5,4 +5,4 @@ for suf in "$@"; do
   for p in C01 C02 C03 C04 C05 C06 C07 C08 C09 C10 C11 C12 C13 C14 C15 C16 C17 C18 C19 C20; do
     [ -f /verif/seeded/$p$suf/patch.diff ] && echo "$p$suf $p"
   done
-done | xargs -P 4 -L 1 bash -c 'out=$(/verif/tools/try_seed_isolated.sh $0 $1 2>&1 | tail -1); echo "$0 $out"'
+done | xargs -P ${REGRESS_JOBS:-4} -L 1 bash -c 'out=$(/verif/tools/try_seed_isolated.sh $0 $1 2>&1 | tail -1); echo "$0 $out"'
